@@ -105,3 +105,51 @@ func lemmaFreqHasLocsRoundTrip(freq uint64, hasLocs bool) {
 //@ bv loop 1 invariant old(r.C) < len(r.S) ==> r.C - old(r.C) < uvLen(row(r.S), off(r.S)+old(r.C)) [C01,C06,C07]
 //@ bv loop 1 invariant uvCont(row(r.S), off(r.S)+old(r.C), r.C - old(r.C)) && (old(r.C) < len(r.S) ==> r.C < len(r.S)) [C01,C06,C07]
 //@ end
+
+// ---- C20: reference counting of an opened segment ----
+
+//@ func (*Segment).AddRef
+//@ thin
+//@ tags [C20]
+//@ requires muHeld(s.m) == 0
+//@ ensures s.refs == old(s.refs) + 1 || (old(s.refs) == 9223372036854775807)
+//@ ensures muHeld(s.m) == 0
+//@ ensures $liveFiles == old($liveFiles) && $liveMaps == old($liveMaps)
+//@ end
+
+//@ func (*Segment).closeActual returns (err)
+//@ thin
+//@ tags [C20]
+//@ requires s.mm != nil ==> mmMapped(base(s.mm))
+//@ requires s.f != nil ==> fileOpen(s.f)
+//@ ensures old(s.mm) != nil ==> !mmMapped(old(base(s.mm))) && mmUnmaps(old(base(s.mm))) == old(mmUnmaps(base(s.mm))) + 1 && $liveMaps == old($liveMaps) - 1
+//@ ensures old(s.mm) == nil ==> $liveMaps == old($liveMaps)
+//@ ensures s.f != nil ==> !fileOpen(s.f) && fileCloses(s.f) == old(fileCloses(s.f)) + 1 && $liveFiles == old($liveFiles) - 1
+//@ ensures s.f == nil ==> $liveFiles == old($liveFiles)
+//@ ensures s.f == old(s.f) && s.refs == old(s.refs)
+//@ ensures muHeld(s.m) == old(muHeld(s.m))
+//@ end
+
+//@ func (*Segment).DecRef returns (err)
+//@ thin
+//@ tags [C20]
+//@ requires muHeld(s.m) == 0
+//@ requires s.refs == 1 ==> (s.mm != nil ==> mmMapped(base(s.mm))) && (s.f != nil ==> fileOpen(s.f))
+//@ ensures s.refs == old(s.refs) - 1 || old(s.refs) == -9223372036854775808
+//@ ensures muHeld(s.m) == 0
+//@ ensures old(s.refs) != 1 ==> $liveFiles == old($liveFiles) && $liveMaps == old($liveMaps)
+//@ ensures old(s.refs) != 1 ==> mmMapped(old(base(s.mm))) == old(mmMapped(base(s.mm))) && fileOpen(s.f) == old(fileOpen(s.f))
+//@ ensures old(s.refs) == 1 && old(s.mm) != nil ==> !mmMapped(old(base(s.mm))) && mmUnmaps(old(base(s.mm))) == old(mmUnmaps(base(s.mm))) + 1
+//@ ensures old(s.refs) == 1 && s.f != nil ==> !fileOpen(s.f) && fileCloses(s.f) == old(fileCloses(s.f)) + 1
+//@ ensures old(s.refs) == 1 && old(s.mm) != nil && s.f != nil ==> $liveFiles == old($liveFiles) - 1 && $liveMaps == old($liveMaps) - 1
+//@ end
+
+//@ func (*Segment).Close returns (err)
+//@ thin
+//@ tags [C20]
+//@ requires muHeld(s.m) == 0
+//@ requires s.refs == 1 ==> (s.mm != nil ==> mmMapped(base(s.mm))) && (s.f != nil ==> fileOpen(s.f))
+//@ ensures s.refs == old(s.refs) - 1 || old(s.refs) == -9223372036854775808
+//@ ensures old(s.refs) != 1 ==> $liveFiles == old($liveFiles) && $liveMaps == old($liveMaps)
+//@ ensures old(s.refs) == 1 && old(s.mm) != nil && s.f != nil ==> $liveFiles == old($liveFiles) - 1 && $liveMaps == old($liveMaps) - 1
+//@ end
